@@ -40,7 +40,7 @@ static int iterValueConv(MPT_INTERFACE(convertable) *val, MPT_TYPE(type) type, v
 		return 's';
 	}
 	if (type == 's') {
-		if (ptr) *((const char **) ptr) = (char *) d + 1;
+		if (ptr) *((const char **) ptr) = (const char *) (d + 1);
 		return MPT_ENUM(TypeIteratorPtr);
 	}
 	return MPT_ERROR(BadType);
